@@ -4,6 +4,8 @@ use serde_json::Value;
 pub mod c01;
 pub mod c02;
 pub mod c03;
+pub mod c04;
+pub mod c08;
 pub mod c15;
 
 pub fn run(ctx: &Ctx) -> i32 {
@@ -11,6 +13,8 @@ pub fn run(ctx: &Ctx) -> i32 {
         "C01" => c01::run(ctx),
         "C02" => c02::run(ctx),
         "C03" => c03::run(ctx),
+        "C04" => c04::run(ctx),
+        "C08" => c08::run(ctx),
         "C15" => c15::run(ctx),
         other => {
             eprintln!("unknown property {}", other);
@@ -24,6 +28,8 @@ pub fn replay(prop: &str, op: &str, case: &Value, acc: &mut Acc) -> bool {
         "C01" => c01::replay(op, case, acc),
         "C02" => c02::replay(op, case, acc),
         "C03" => c03::replay(op, case, acc),
+        "C04" => c04::replay(op, case, acc),
+        "C08" => c08::replay(op, case, acc),
         "C15" => c15::replay(op, case, acc),
         _ => false,
     }
